@@ -469,6 +469,79 @@ AREAS["C11"] = {'area': 'c11',
                  'structs',
                  'slices passed to Decode have no non-zero elements hidden between len and cap']}
 
+AREAS["C07"] = {'area': 'c07',
+ 'id': 7,
+ 'coq': ['Base', 'Store', 'Manager', 'Properties/C07.v'],
+ 'rule': 'seeded generator of histories against one fresh instance (embedded NATS server + store on a temp SQLite file) with the real '
+         'client.NewManager and an instrumented client type: a store populated before the manager starts (0-2 groups / configured parent-type nodes, '
+         'possibly nested, 1-3 nodes of the managed type under root, group, parent-type or a non-parent node, 0-2 children, sometimes a deleted '
+         'holder), then 3-10 settled steps (create / delete / undelete of nodes of the type, delete / undelete of the group above them, add / remove '
+         '/ restore / re-type a child, mirror under a second holder, point updates with origins u1/u2/empty, edge data points, unrelated nodes), '
+         'each followed by a rescan trigger (throw-away node of an unrelated type) and a wait on the log; 2 in 5 histories end with a rapid burst of '
+         '2-6 such requests incl. create-delete pairs fired without waiting; 1 in 20 with a stale delete; the two group-deletion histories of '
+         'finding F6 run from corpus/C07. A history is non-trivial when at least one client was started and at least one stopped before the final '
+         'Stop; distinct by SHA-1 of (parent types, steps)',
+ 'trusted': ["model of Manager.scanHelper / scan / the Run loop's events and of the per-client up.<id>.> callback: coq/theories/Manager/Model.v "
+             "(hand-written, tied by this run's correspondence: every client start with its configuration, every exit, the running set after every "
+             'step, every Points / EdgePoints callback)',
+             'model of data.Decode for the instrumented client type (two scalar point fields, one edge point field, one child slice) in the same '
+             'file',
+             'the instrumented client type and the step runner of harness/cmd/harness/c07.go (logical clock, sentinel flush of the per-client '
+             'subscriptions, wait conditions)'],
+ 'assumptions': ["a client's Run returns within the 5 s guard after Stop (the instrumented client returns at once)",
+                 'NATS delivers the messages of one subscription to its callback one at a time in publish order (per-subscription FIFO)',
+                 'mapKey (parent + "-" + id) is injective on the placements present (holds for ids of one fixed length such as UUIDs; the generated '
+                 'ids contain no "-")',
+                 "edge tombstone points carry 0, 1 or 2 (GetNodes treats exactly 1 as deleted, the store's up() every odd value); points of the "
+                 'decoded scalar fields carry key "" or "0"',
+                 'SQLite, database/sql and NATS request/reply behave as documented (a write is visible to reads issued after its reply); '
+                 'Manager.Stop is called once'],
+ 'level_text': 'proof: scan_post, C07_quiescent (+ C07_drain_reaches_quiescence), C07_no_overlap, C07_child_restart, C07_stop_returns, '
+               'C07_scan_finds_placements are Coq theorems about the executable event-driven model of one Manager (for every finite event history); '
+               'the model is run against the real client.NewManager with an instrumented client type on generated histories and must reproduce every '
+               'client start with its configuration, every exit and the running set after every settled step; the specification (running set = live '
+               'placements computed independently from the store dump, configurations, no overlap in the log, Stop returns) is evaluated on the real '
+               'log',
+ 'level_note': "PARTIAL: the theorems quantify over event histories of the model; goroutine scheduling inside Run's select, the NATS callback "
+               'threads, the subscription drain loop and the 5 s shutdown guard cannot be exhibited by the model and are covered only by the '
+               'generated histories (settled steps, rapid bursts where only the final running set is compared). trusted: Coq kernel, extraction, '
+               'OCaml driver, Go harness; modelled not verified: NATS, SQLite, data.Decode'}
+
+AREAS["C08"] = {'area': 'c08',
+ 'id': 8,
+ 'coq': ['Base', 'Store', 'Manager', 'Properties/C08.v'],
+ 'rule': 'seeded generator: tree root -> [group] -> client node c1 with 1-2 children, a grandchild, a sibling client s1, an unrelated node '
+         '(variants: child shared with the sibling, two paths from the grandchild to the client); 2-4 rounds of 4-11 writes fired back to back: '
+         'node-point batches of 1-3 points (description / value / other types, keys ""/0/other, deleted points) with origins from {empty, c1, s1, a '
+         'child id, other, u2} written to {c1, child, grandchild, sibling, unrelated}, 1 in 12 points of mixed authorship, edge data points (role / '
+         "sortOrder) on the client's and the children's edges; between rounds a structure change that restarts a client (remove / restore / add / "
+         're-type a child, delete + undelete the client node); after every round each per-client subscription is flushed with a sentinel and the '
+         'callback log, the folded and the stored configuration are recorded. A case is non-trivial when at least one callback was made and at least '
+         'one batch was authored by a running client; distinct by SHA-1 of (parent types, steps)',
+ 'trusted': ["model of Manager.scanHelper / scan / the Run loop's events and of the per-client up.<id>.> callback: coq/theories/Manager/Model.v "
+             "(hand-written, tied by this run's correspondence: every client start with its configuration, every exit, the running set after every "
+             'step, every Points / EdgePoints callback)',
+             'model of data.Decode for the instrumented client type (two scalar point fields, one edge point field, one child slice) in the same '
+             'file',
+             'the instrumented client type and the step runner of harness/cmd/harness/c07.go (logical clock, sentinel flush of the per-client '
+             'subscriptions, wait conditions)'],
+ 'assumptions': ["a client's Run returns within the 5 s guard after Stop (the instrumented client returns at once)",
+                 'NATS delivers the messages of one subscription to its callback one at a time in publish order (per-subscription FIFO)',
+                 'mapKey (parent + "-" + id) is injective on the placements present (holds for ids of one fixed length such as UUIDs; the generated '
+                 'ids contain no "-")',
+                 "edge tombstone points carry 0, 1 or 2 (GetNodes treats exactly 1 as deleted, the store's up() every odd value); points of the "
+                 'decoded scalar fields carry key "" or "0"',
+                 'SQLite, database/sql and NATS request/reply behave as documented (a write is visible to reads issued after its reply); '
+                 'Manager.Stop is called once',
+                 'timestamps are non-decreasing per point identity and every batch has one author (batches of mixed authorship are compared with the '
+                 'model only)'],
+ 'level_text': 'proof: C08_filter_exact, C08_order, C08_only_subtree (from C06_complete), C08_edge_points are Coq theorems about the executable '
+               "model of the per-client callback composed with the store model's rebroadcast; the callback log of every running instrumented client "
+               'is compared with the model and with the specification (echo filter predicate, order, subtree closure of the dump, completeness), and '
+               "the configuration folded with data.MergePoints / MergeEdgePoints is compared with the store's",
+ 'level_note': 'trusted: Coq kernel, extraction, OCaml driver, Go harness; NATS per-subscription FIFO is a named hypothesis of C08_order; the fold '
+               'clause (client state = store) is checked on the real data.MergePoints per run, not proved (it needs the codec model of C10)'}
+
 WIP = "not yet built in this round; the design (DESIGN.md section 6) claims it and the check is being added"
 NOT_CLAIMED = {pid: WIP for pid in ["C%02d" % i for i in range(1, 21)] if pid not in AREAS}
 HOOK_COMMITS = ["6f869d9", "e935e32"]
